@@ -411,6 +411,21 @@ def check_polylin(case, rec):
                   scale=np.sum(np.abs(c1) * nrm), msg=f'{fam}: poly(c) != sum_k c_k Z_k (N={N})')
     else:
         rec.check('poly-superposition', False, msg=f'{fam}: terms() returned {len(tv)} terms for {N} coefficients')
+    # terms() of a SPARSE coefficient vector (exact zeros, as in a unit vector or a fit with removed terms): still one
+    # entry per coefficient, entry k = c_k Z_k (a zero coefficient gives a zero entry, not a missing one)
+    if ok_len and N >= 2:
+        cs = np.array(c1, float).copy()
+        cs[np.arange(N) % 2 == (1 if N > 2 else 0)] = 0.0
+        cs[0] = 0.0 if N > 2 else cs[0]
+        ts = cls(coeffs=cs).terms(r, p)
+        if len(ts) == N:
+            Ts = np.stack([np.broadcast_to(np.asarray(t, float), r.shape) for t in ts], axis=1)
+            rec.close('poly-superposition', Ts, B * cs[None, :], TOL_LIN, scale=max(np.sum(np.abs(cs) * nrm), 1e-300),
+                      key='poly-superposition:sparse-terms',
+                      msg=f'{fam}: terms() of a coefficient vector with exact zeros: entry k != c_k Z_k (N={N})')
+        else:
+            rec.check('poly-superposition', False, key='poly-superposition:sparse-terms',
+                      msg=f'{fam}: terms() returned {len(ts)} entries for {N} coefficients of which some are exactly zero')
     rec.event('poly_evaluations', 7)
 
 
